@@ -149,6 +149,11 @@ type session struct {
 	events  int64
 	evMu    sync.Mutex
 	skipped []string // public methods whose parameters the generator cannot produce (streams, funcs, ...)
+	// server-streaming RPCs of the services the model registers (captured by calling its Register method with a
+	// recording grpc.ServiceRegistrar); driven through the generated stream handlers with a recording ServerStream
+	rpcs       []streamRPC
+	registered []string // services captured from Register
+	configured string   // how the instance was constructed ("default" or the generated configuration)
 }
 
 func supportedParam(t reflect.Type) bool {
@@ -171,10 +176,22 @@ func supportedParam(t reflect.Type) bool {
 	return false
 }
 
-func newSession(e modelEntry, r *rand.Rand) *session {
-	s := &session{entry: e, r: r, g: pbgen.New(r), tr: newTracker()}
-	s.g.Density, s.g.MaxDepth = 0.4, 2
-	s.model = reflect.ValueOf(e.New())
+func newSession(e modelEntry, r *rand.Rand) *session { return newSessionCfg(e, r, false, 0.4) }
+
+// newSessionCfg builds the driven instance: default-constructed, or (configured) from generated constructor
+// arguments (drive.go). density is the probability that a field of a generated message is populated.
+func newSessionCfg(e modelEntry, r *rand.Rand, configured bool, density float64) *session {
+	s := &session{entry: e, r: r, g: pbgen.New(r), tr: newTracker(), configured: "default"}
+	s.g.Density, s.g.MaxDepth = density, 2
+	if configured {
+		if inst, how, ok := s.configure(e); ok {
+			s.model, s.configured = inst, how
+		}
+	}
+	if !s.model.IsValid() {
+		s.model = reflect.ValueOf(e.New())
+	}
+	s.captureRPCs()
 	t := s.model.Type()
 	seenTy := map[protoreflect.FullName]bool{}
 	addTy := func(rt reflect.Type) {
@@ -473,20 +490,48 @@ func (s *session) harvest(v reflect.Value, origin string, depth int, fromEvent b
 
 // harvestIDs adds the id/name strings of synchronous results to the string pool, so that later
 // calls address items whose ids the model generated itself.
-func (s *session) harvestIDs(m proto.Message) {
-	r := m.ProtoReflect()
-	for _, n := range []protoreflect.Name{"id", "name"} {
-		if fd := r.Descriptor().Fields().ByName(n); fd != nil && fd.Kind() == protoreflect.StringKind && !fd.IsList() {
-			if v := r.Get(fd).String(); v != "" && len(s.g.Pool) < 9 {
-				found := false
-				for _, p := range s.g.Pool {
-					found = found || p == v
-				}
-				if !found {
-					s.g.Pool = append(s.g.Pool, v)
-				}
+func (s *session) harvestIDs(m proto.Message) { s.harvestNames(m.ProtoReflect(), 0) }
+
+// harvestNames walks a result: the id/name strings of the message and of the messages nested in it (the model's own
+// vocabulary: mode names, preset names, child names, ...) join the pool, top level first, up to a small bound.
+func (s *session) harvestNames(r protoreflect.Message, depth int) {
+	add := func(v string) {
+		limit := 9
+		if depth > 0 {
+			limit = 12
+		}
+		if v == "" || len(v) > 40 || len(s.g.Pool) >= limit {
+			return
+		}
+		for _, p := range s.g.Pool {
+			if p == v {
+				return
 			}
 		}
+		s.g.Pool = append(s.g.Pool, v)
+	}
+	for _, n := range []protoreflect.Name{"id", "name"} {
+		if fd := r.Descriptor().Fields().ByName(n); fd != nil && fd.Kind() == protoreflect.StringKind && !fd.IsList() {
+			add(r.Get(fd).String())
+		}
+	}
+	if depth >= 2 {
+		return
+	}
+	fds := r.Descriptor().Fields() // in declaration order: deterministic
+	for i := 0; i < fds.Len(); i++ {
+		fd := fds.Get(i)
+		if fd.Kind() != protoreflect.MessageKind || fd.IsMap() || !r.Has(fd) {
+			continue
+		}
+		if fd.IsList() {
+			l := r.Get(fd).List()
+			for k := 0; k < l.Len() && k < 4; k++ {
+				s.harvestNames(l.Get(k).Message(), depth+1)
+			}
+			continue
+		}
+		s.harvestNames(r.Get(fd).Message(), depth+1)
 	}
 }
 
@@ -523,7 +568,11 @@ func (s *session) step(i int) (method string, hung bool) {
 		s.trace = append(s.trace, callDesc{Step: i, Method: "(caller edits a message it passed earlier)", Out: txt(m)})
 		return "caller-edit", false
 	}
-	m := s.methods[s.r.Intn(len(s.methods))]
+	k := s.r.Intn(len(s.methods) + len(s.rpcs))
+	if k >= len(s.methods) {
+		return s.stepRPC(i, s.rpcs[k-len(s.methods)])
+	}
+	m := s.methods[k]
 	wantsStream := false
 	for j := 0; j < m.Type.NumOut(); j++ {
 		if m.Type.Out(j).Kind() == reflect.Chan {
@@ -639,11 +688,14 @@ func runModelSeq(ms modelSeq, mon *lib.Monitor) int {
 		mon.Error = "unknown model " + ms.Model
 		return 0
 	}
-	s := newSession(e, seqRand(ms.Seed, ms.Model, ms.Seq))
+	// odd sequences drive a configured instance (generated constructor arguments), even ones the default instance;
+	// the density of generated messages cycles through sparse / medium / dense
+	s := newSessionCfg(e, seqRand(ms.Seed, ms.Model, ms.Seq), ms.Seq%2 == 1, []float64{0.4, 0.65, 0.85}[(ms.Seq/2)%3])
 	defer s.close()
 	if len(s.methods) == 0 {
 		return 0
 	}
+	mon.Count("instance:" + map[bool]string{true: "default", false: "configured"}[s.configured == "default"])
 	// a second, untouched instance of the same model: default options hold ONE package-level initial message per
 	// package, so both instances' stores start on the very same message. What the twin's argument-less readers
 	// return (with no mask: the shared stored message itself) is tracked like every other snapshot: no write to
@@ -672,7 +724,7 @@ func runModelSeq(ms modelSeq, mon *lib.Monitor) int {
 		mon.Count("call:" + e.Pkg + "." + method)
 		for _, c := range s.tr.changed() {
 			sig := fmt.Sprintf("C07/%s/changed-by/%s", e.key(), method)
-			input := map[string]any{"kind": "model", "model": ms.Model, "seed": ms.Seed, "seq": ms.Seq, "steps": i + 1, "trace": tail(s.trace, 12)}
+			input := map[string]any{"kind": "model", "model": ms.Model, "seed": ms.Seed, "seq": ms.Seq, "steps": i + 1, "instance": s.configured, "trace": tail(s.trace, 12)}
 			mon.Violate(sig, fmt.Sprintf("a message obtained at step %d (%s) changed after step %d (%s)", c.Step, c.Origin, i, method),
 				input, txt(c.copy), txt(c.ptr))
 		}
